@@ -358,6 +358,30 @@ theorem y_def (w : α) (k : Consts α) (p : Pep α) (h : WellFormed w p) (i : Na
 
 example : (ions kZ .y pZ)[0]? = some (18 + 0 + ((57 + 16) + 128)) := by decide
 
+theorem take_succ_sum (l : List α) (i : Nat) (m : α) (h : l[i]? = some m) :
+    (l.take (i + 1)).sum = (l.take i).sum + m := by
+  rw [List.take_add_one, h]; simp
+
+theorem drop_sum_cons (l : List α) (i : Nat) (m : α) (h : l[i]? = some m) :
+    (l.drop i).sum = m + (l.drop (i + 1)).sum := by
+  obtain ⟨hlt, he⟩ := List.getElem?_eq_some_iff.mp h
+  rw [List.drop_eq_getElem_cons hlt, he]; simp
+
+/-- **C09.ladder_step** — the ladders are ladders: for a mass-consistent peptide of any length, consecutive b ions
+differ by exactly the mass of the residue between them (with its modification), and so do consecutive y ions,
+in the opposite direction: `B[i+1] = B[i] + m(i+1)` and `Y[i] = Y[i+1] + m(i+1)` — a mass shift at one residue
+moves every later b ion and every earlier y ion by the same amount and no other. -/
+theorem ladder_step (w : α) (k : Consts α) (p : Pep α) (h : WellFormed w p) (i : Nat) (hi : i + 2 < p.residues.length)
+    (m : α) (hm : (masses p)[i + 1]? = some m) :
+    (∃ b, (ions k .b p)[i]? = some b ∧ (ions k .b p)[i + 1]? = some (b + m)) ∧
+    (∃ y, (ions k .y p)[i + 1]? = some y ∧ (ions k .y p)[i]? = some (y + m)) := by
+  constructor
+  · refine ⟨_, b_def w k p h i (by omega), ?_⟩
+    rw [b_def w k p h (i + 1) (by omega), take_succ_sum _ _ _ hm, add_assoc]
+  · refine ⟨_, y_def w k p h (i + 1) (by omega), ?_⟩
+    rw [y_def w k p h i (by omega), drop_sum_cons _ _ _ hm]
+    congr 1; ring
+
 /-- **C09.offsets** — a, c are the b series shifted by `−(C+O)` and `+NH3`; x, z are the y series shifted
     by `C+O−NH3+N+H` and `−NH3`: exactly the constants of `IonSeries::new`, ion by ion, for every
     peptide (even one whose mass is inconsistent). -/
